@@ -47,7 +47,7 @@ func emit(input, impl, src string, tags ...string) {
 	}
 	seen[input] = true
 	kinds[input[:1]]++
-	out.Case(input, impl+"\t"+esc(src), true, tags...)
+	out.Case(input, esc(impl)+"\t"+esc(src), true, tags...)
 }
 
 func newEnv() *zygo.Zlisp {
@@ -78,6 +78,7 @@ type session struct {
 
 var totalSteps, totalEvals, okEvals, errEvals, panicEvals, budgetEvals int
 var panicSamples []string
+var errKinds = map[string]int{}
 var highWater [4]int
 
 // eval runs one text through LoadString + Run (exactly EvalString), dumping the new main
@@ -151,6 +152,16 @@ func (s *session) eval(src string, tags []string) lib.Result {
 		env.Clear()
 	default:
 		errEvals++
+		if res.Err != nil {
+			m := res.Err.Error()
+			if i := strings.Index(m, "\n"); i > 0 {
+				m = m[:i]
+			}
+			if len(m) > 70 {
+				m = m[:70]
+			}
+			errKinds[m]++
+		}
 		env.Clear()
 	}
 	return res
@@ -194,6 +205,8 @@ var edgeCorpus = []string{
 	`(include)`, `(defn rr [] (return 1 2)) (rr)`, `(defn r1 [] (return 5)) (+ 1 (r1))`,
 	`(for [(def i 0) (< i 2) (set i (+ i 1))] ^(1 ~(break)))`, `(for [(def i 0) (< i 2) (set i (+ i 1))] (+ 1 (continue)))`,
 	`(cond (begin) 1 2)`, `(+ 5 (cond (begin) 1 2))`, `(defn gg [] (let [a 1] (begin))) (+ 5 (gg))`,
+	`(for [(def i 0) (< i 1) (set i (+ i 1))] (or (let [v 1] (continue)) 2))`, `(for [(def i 0) (< i 2) (set i (+ i 1))] (cond (newScope (break)) 1 2))`,
+	`(for [(def i 0) (< i 2) (set i (+ i 1))] (and (letseq [w 1] (cond (== i 0) (continue) w)) 3))`,
 	`(hash a:(begin) b:2)`, `[1 (begin) 2]`, `[(newScope)]`, `(len [(begin)])`,
 }
 
@@ -334,6 +347,7 @@ func main() {
 	out.Extra["evaluations_budget"] = budgetEvals
 	out.Extra["evaluations_panic"] = panicEvals
 	out.Extra["panic_samples"] = panicSamples
+	out.Extra["error_kinds"] = errKinds
 	out.Extra["tests_zy_files"] = nfiles
 	out.Extra["opcode_histogram"] = c.opcount
 	out.Extra["unknown_instruction_types"] = c.unknown
